@@ -249,6 +249,11 @@ def lit_texts(c):
     return out
 
 
+def cond_text(cv):
+    """C text of a controlling expression of CTypes.CondControls ("x" = the non-constant object x_c)"""
+    return "x_c" if cv == "x" else cv
+
+
 def expr_texts(c):
     f = c["form"]
     if f == "bin":
@@ -256,7 +261,7 @@ def expr_texts(c):
         return ["%s %s %s" % (a, op, b) for op in c["ops"]]
     if f == "cond":
         a, b = operand("a", c["a"], c["aw"]), operand("b", c["b"], c["bw"])
-        return ["%s ? %s : %s" % ({"x": "x_c", "1": "1", "0": "0"}[c["cv"]], a, b)]
+        return ["%s ? %s : %s" % (cond_text(c["cv"]), a, b)]
     if f == "un":
         a = operand("a", c["a"], c["aw"])
         op = c["ops"][0]
@@ -614,6 +619,16 @@ def compat(ctx, objdir):
     for c in cases:
         t1 = c["t1"]
         A = tn.name(t1)
+        # quick: every second controlling expression per left type (all of them occur over the run), thorough: all
+        allc = c["conds"]
+        rest = [cv for cv in allc if cv not in ("x", "1", "0")]
+        conds = allc if not ctx.quick else ["x", "1", "0", rest[len(tn.names) % len(rest)]]
+        conds_npc = conds if not ctx.quick else ["1", "0", rest[len(tn.names) % len(rest)]]
+        info1 = {"t1": cdecl(t1), "t2": "null pointer constant", "qenum": False, "arrq": False}
+        for rt, fmt in zip(c["npc"], ("%s ? 0 : o_%s", "%s ? o_%s : 0", "%s ? (void *)0 : o_%s", "%s ? o_%s : (void *)0")):
+            R = tn.name(rt)
+            for cv in conds_npc:
+                batch.append(("condnpc", "int v%%d = _Generic((%s), %s: 1, default: 0);" % (fmt % (cond_text(cv), A), R), 1, None, info1, None, None))
         for p in c["partners"]:
             t2 = p["t2"]
             Bn = tn.name(t2)
@@ -621,6 +636,12 @@ def compat(ctx, objdir):
             if p["bsafe"]:
                 batch.append(("builtin", "int v%d = __builtin_types_compatible_p(%s, %s);", int(p["compat_unq"]), None, info, A, Bn))
             batch.append(("generic", "int v%d = _Generic((%s *)0, %s *: 1, default: 0);", int(p["compat"]), None, info, A, Bn))
+            if p["cond"]:
+                # 6.5.15p6 with every kind of controlling expression (cproc folds constant conditions when parsing)
+                R = tn.name(p["condt"])
+                for cv in conds:
+                    batch.append(("cond", "int v%%d = _Generic((%s ? o_%s : u_%s), %s: 1, default: 0);" % (cond_text(cv), A, Bn, R), 1,
+                                  int(p["cond_alt"]) if p["cond_dev"] else None, info, None, None))
             fn = t1["k"] == "fn"
             ext = "" if fn else "extern "
             if p["redecl"] == "accept":
@@ -650,7 +671,8 @@ def compat(ctx, objdir):
                 if len(rejects) % 8 == 0:
                     rejects.append(("ptrarg", "void g(%s *); void h(%s *q) { g(q); }" % (A, Bn), info))
                     rejects.append(("ptrret", "%s *k(%s *q) { return q; }" % (A, Bn), info))
-    pre = enum_prelude(True) + STRUCT_DEFS + "\n".join(tn.defs) + "\n"
+    objs = "".join("extern %s *o_%s, *u_%s;\n" % (n, n, n) for n in sorted(tn.names.values(), key=lambda x: int(x[1:])))
+    pre = enum_prelude(True) + STRUCT_DEFS + "extern int x_c;\n" + "\n".join(tn.defs) + "\n" + objs
     # number the probes
     lines = []
     for j, b in enumerate(batch):
